@@ -98,7 +98,37 @@ def run(chk):
                 chk.violated("R2", sig, str(x), loc)
             except ev.Inconclusive as x:
                 chk.inconclusive("R2", sig, str(x), loc)
+    if chk.tier == "thorough":
+        gxx_second_opinion(chk)
     chk.floor("relation functions (x3 numeric types)", n_rel, 4500)
     chk.floor("distinct relation signatures", len(names), 1500)
     chk.coverage["relation_functions"] = n_rel
     chk.coverage["distinct_signatures"] = len(names)
+
+
+def gxx_second_opinion(chk):
+    """Thorough: the same instantiating drivers type-checked by the repository's own compiler (g++ -fsyntax-only)."""
+    import os
+    import re
+    import subprocess
+    from concurrent.futures import ThreadPoolExecutor
+    from .. import frontend
+    work = frontend.build_facts(chk.tier)
+
+    def one(T):
+        src = os.path.join(work, "driver_%s.cc" % frontend.TAG[T])
+        r = subprocess.run(["g++", "-std=c++17", "-fsyntax-only", "-fmax-errors=0", "-w", "-I" + work, "-I" + frontend.INC, src],
+                           capture_output=True, text=True)
+        return T, r
+    with ThreadPoolExecutor(3) as ex:
+        for T, r in ex.map(one, NUMERIC):
+            errs = [l for l in r.stderr.splitlines() if re.search(r": (fatal )?error:", l)]
+            repo_errs = [l for l in errs if l.startswith(frontend.INC)]
+            other = [l for l in errs if not l.startswith(frontend.INC)]
+            for l in repo_errs[:20]:
+                m = re.match(r"(.*?:\d+):\d+: (?:fatal )?error: (.*)", l)
+                chk.violated("R0", "g++|%s|%s" % (short(m.group(1)) if m else l[:60], T), "g++ 12: %s" % (m.group(2) if m else l), short(m.group(1)) if m else "")
+            if other and not repo_errs:
+                chk.inconclusive("R0", "g++ driver <%s>" % T, "the generated driver does not compile with g++: %s" % other[0][:300], "")
+            if not errs:
+                chk.holds("R0", "g++ all instantiations <%s>" % T, "g++ 12 -fsyntax-only accepts every instantiation of the driver", "")
